@@ -48,13 +48,16 @@ theorem PayloadIs.congr {o : Obj K} {D E : Mx K} (h : PayloadIs o D)
 
 theorem Sound.congr {o : Obj K} {D E : Mx K} (h : Sound o D)
     (hDE : ∀ i j, i < o.m → j < o.n → D i j = E i j) : Sound o E :=
-  { lin := h.lin, ev := h.ev.congr hDE, ad := h.ad.congr hDE, pl := h.pl.congr hDE, mode := h.mode }
+  { lin := h.lin, ev := h.ev.congr hDE, ad := h.ad.congr hDE, pl := h.pl.congr hDE, mode := h.mode,
+    evSz := h.evSz, adSz := h.adSz }
 
 /-- `MatrixOperator(A)` denotes `A` -/
 theorem mkMat_sound (m n : Nat) (dt : DT) (A D : Mx K)
     (hAD : ∀ i j, i < m → j < n → A i j = D i j) (hmode : RealK K ∨ dt.isComplex = true) :
     Sound (mkMat m n dt A) D :=
   { lin := by simp [mkMat]
+    evSz := fun x => by simp [mkMat, Obj.m, vmulVec, trunc]
+    adSz := fun y => by simp [mkMat, Obj.n, vmulVecH, trunc]
     ev := by
       intro x i
       simp only [mkMat, vmulVec_get, Obj.m, Obj.n, size_plain_single]
@@ -247,9 +250,12 @@ theorem matHadamard_sound (div : Bool) {a b o : Obj K} {Da Db : Mx K} (ha : Soun
 theorem mkLinAuto_sound (inSh outSh : Shape) (inDt outDt : DT) (eval : Vc K → Vc K) (evalDt : DtFn)
     (D : Mx K)
     (hev : ∀ (x : Vc K) (i : Nat), (eval x).get i = if i < outSh.size then mulVec inSh.size D x.get i else 0)
+    (hsz : ∀ x : Vc K, (eval x).size = outSh.size)
     (hmode : RealK K ∨ (inDt.isComplex = true ∧ outDt.isComplex = true)) :
     Sound (mkLinAuto inSh outSh inDt outDt eval evalDt) D :=
   { lin := by simp [mkLinAuto]
+    evSz := fun x => by simp only [mkLinAuto, mkLin_eval, mkLin_m]; exact hsz x
+    adSz := fun y => by simp only [mkLinAuto, mkLin_adj, mkLin_n]; exact autoAdjWith_size _ _ _ _ _ _
     pl := by simp [PayloadIs, mkLinAuto, mkLin]
     ev := by
       intro x i
@@ -341,7 +347,7 @@ theorem matCall_sound (cfg : Cfg) {a b o : Obj K} {Da Db : Mx K} (ha : Sound a D
         · cases h
         · rename_i outDt hout
           injection h with h; subst h
-          refine mkLinAuto_sound _ _ _ _ _ _ _ ?_ ?_
+          refine mkLinAuto_sound _ _ _ _ _ _ _ ?_ (fun x => ha.evSz _) ?_
           · intro x i
             rw [ha.ev (b.eval x) i]
             by_cases hi : i < a.m
